@@ -29,12 +29,16 @@ inductive Obs where
   | rd (sid : Nat) (n : Int)      -- the application read n body bytes of stream sid
   | crst (sid : Nat)              -- the peer reset stream sid (issued by the harness while quiescing)
   | closed                        -- the endpoint closed the connection
+  | connerr (code : Nat)          -- the endpoint's application saw a connection error with this code
   | skipped                       -- the scripted application step could not be performed (handler busy / gone)
   | other                         -- anything else (response HEADERS/DATA, blocked/busy markers)
 deriving Repr, DecidableEq
 
 inductive Act where
-  | reset (connWin streamWin : Int)                       -- new connection, configured receive windows
+  | reset (connWin streamWin : Int)                       -- new server connection, configured receive windows
+  | treset (connWin streamWin : Int)                      -- new Transport connection (the endpoint is the client)
+  | req (sid : Nat) (kind : Nat)                          -- Transport: application starts a request (0 GET, 1 POST whose body stays open, 2 HEAD)
+  | rhdr (sid : Nat) (es : Bool)                          -- Transport: peer sends the response HEADERS
   | hdr (sid : Nat) (cl : Int) (es : Bool)                -- peer opens a stream; cl = declared Content-Length or -1
   | data (sid : Nat) (len pad : Int) (es : Bool)          -- peer DATA; pad = -1: unpadded, else pad bytes + 1 length byte
   | read (sid : Nat)                                      -- application reads (result in Obs.rd)
@@ -50,6 +54,7 @@ structure Line where
 deriving Repr
 
 inductive SStatus where
+  | preHeaders   -- Transport: request sent, no response HEADERS yet (DATA is a protocol error)
   | open_        -- peer may send DATA that is delivered (charged to conn and stream windows)
   | halfRemote   -- peer has ended the stream; body still readable
   | closed       -- closeStream has run (reset by either side, or handler returned)
@@ -63,11 +68,14 @@ structure StreamSt where
   bodyBytes : Int    -- payload bytes accepted for the body so far
   delivered : Int    -- bytes the application has read
   bodyClosed : Bool  -- the application closed the body
+  lingers : Bool     -- Transport: the stream stays registered after the peer's END_STREAM (request body still open)
+  isHead : Bool      -- Transport: HEAD request (any DATA payload is a protocol error)
 deriving Repr, DecidableEq
 
 structure Mon where
   started : Bool
   dead : Bool            -- connection-level error / close: nothing further is checked
+  transport : Bool       -- role of the endpoint under test: false = server, true = Transport
   configured : Int       -- configured connection receive window
   streamInit : Int       -- advertised initial stream window
   conn : Int             -- peer's view of the connection receive window
@@ -78,7 +86,7 @@ structure Mon where
 deriving Repr, DecidableEq
 
 /-- Before any connection: the RFC initial window, nothing sent or received. -/
-def Mon.init : Mon := ⟨false, false, 0, 0, initialWindowSize, 0, 0, 0, []⟩
+def Mon.init : Mon := ⟨false, false, false, 0, 0, initialWindowSize, 0, 0, 0, []⟩
 
 def findStream (ss : List StreamSt) (sid : Nat) : Option StreamSt :=
   ss.find? (fun s => s.id == sid)
@@ -104,6 +112,32 @@ structure ActOut where
   expectFC : Option Nat
 deriving Repr
 
+/-- Where FLOW_CONTROL_ERROR is reported for a DATA frame on stream `sid`: the server resets
+the stream; the Transport treats every receive-window violation as a connection error
+(reported on "stream" 0: GOAWAY / the application's connection error). -/
+def fcTarget (m : Mon) (sid : Nat) : Nat := if m.transport then 0 else sid
+
+/-- Status after the peer's END_STREAM has been processed. -/
+def endedStatus (m : Mon) (s : StreamSt) : SStatus :=
+  if m.transport && !s.lingers then .closed else .halfRemote
+
+/-- The frame is not delivered: it is charged to (and refunded on) the connection window only;
+on the Transport a stream that was still registered is aborted (protocol error). -/
+def connOnlyAct (m : Mon) (sid : Nat) (L : Int) : ActOut :=
+  if L > m.conn then ⟨m, some (fcTarget m sid)⟩
+  else
+    let ss := if m.transport then updStream m.streams sid (fun s => { s with status := .closed }) else m.streams
+    ⟨{ m with conn := m.conn - L, sumData := m.sumData + L, streams := ss }, none⟩
+
+/-- The frame is within both windows and is delivered to the stream's body. -/
+def acceptAct (m : Mon) (st : StreamSt) (sid : Nat) (len L : Int) (es : Bool) : ActOut :=
+  let ended := es && !(st.bodyClosed && decide (len > 0))
+  let ss := updStream m.streams sid (fun s =>
+    { s with win := s.win - L,
+             bodyBytes := if len > 0 then s.bodyBytes + len else s.bodyBytes,
+             status := if ended then endedStatus m s else s.status })
+  ⟨{ m with conn := m.conn - L, sumData := m.sumData + L, streams := ss }, none⟩
+
 def dataAct (m : Mon) (sid : Nat) (len pad : Int) (es : Bool) : ActOut :=
   let L := flowLen len pad
   if len < 0 ∨ pad < -1 then ⟨{ m with dead := true }, none⟩ else   -- not a DATA frame
@@ -112,25 +146,18 @@ def dataAct (m : Mon) (sid : Nat) (len pad : Int) (es : Bool) : ActOut :=
     -- DATA on an idle stream is a connection error (PROTOCOL_ERROR); not a flow-control matter
     ⟨{ m with dead := true }, none⟩
   | some st =>
-    let connOnly : ActOut :=
-      if L > m.conn then ⟨m, some sid⟩
-      else ⟨{ m with conn := m.conn - L, sumData := m.sumData + L }, none⟩
     match st.status with
-    | .closed => connOnly
-    | .halfRemote => connOnly
+    | .closed => connOnlyAct m sid L
+    | .halfRemote => connOnlyAct m sid L
+    | .preHeaders => connOnlyAct m sid L
     | .open_ =>
-      if st.declCL ≠ -1 ∧ st.bodyBytes + len > st.declCL then connOnly
+      if st.declCL ≠ -1 ∧ st.bodyBytes + len > st.declCL then connOnlyAct m sid L
       else if L = 0 then
-        let ss := updStream m.streams sid (fun s => { s with status := if es then .halfRemote else s.status })
+        let ss := updStream m.streams sid (fun s => { s with status := if es then endedStatus m s else s.status })
         ⟨{ m with streams := ss }, none⟩
-      else if L > m.conn ∨ L > st.win then ⟨m, some sid⟩
-      else
-        let ended := es && !(st.bodyClosed && decide (len > 0))
-        let ss := updStream m.streams sid (fun s =>
-          { s with win := s.win - L,
-                   bodyBytes := if len > 0 then s.bodyBytes + len else s.bodyBytes,
-                   status := if ended then .halfRemote else s.status })
-        ⟨{ m with conn := m.conn - L, sumData := m.sumData + L, streams := ss }, none⟩
+      else if st.isHead ∧ len > 0 then connOnlyAct m sid L
+      else if L > m.conn ∨ L > st.win then ⟨m, some (fcTarget m sid)⟩
+      else acceptAct m st sid len L es
 
 def setStatus (m : Mon) (sid : Nat) (st : SStatus) : Mon :=
   { m with streams := updStream m.streams sid (fun s => { s with status := st }) }
@@ -139,13 +166,31 @@ def actStep (m : Mon) : Act → ActOut
   | .reset c s =>
     if s < 0 ∨ s > maxWindow then ⟨{ Mon.init with started := true, dead := true }, none⟩
     else ⟨{ Mon.init with started := true, configured := c, streamInit := s }, none⟩
+  | .treset c s =>
+    -- the Transport adds its configured buffer to the RFC default window, and keeps one
+    -- request without response open on stream 1 (the harness' observer of connection errors)
+    if s < 0 ∨ s > maxWindow then ⟨{ Mon.init with started := true, dead := true }, none⟩
+    else ⟨{ Mon.init with started := true, transport := true, configured := c + initialWindowSize,
+                          streamInit := s, maxSid := 1,
+                          streams := [⟨1, .preHeaders, s, -1, 0, 0, false, false, false⟩] }, none⟩
+  | .req sid kind =>
+    if sid ≤ m.maxSid ∨ sid % 2 = 0 then ⟨{ m with dead := true }, none⟩
+    else ⟨{ m with maxSid := sid,
+                   streams := ⟨sid, .preHeaders, m.streamInit, -1, 0, 0, false, decide (kind = 1), decide (kind = 2)⟩ :: m.streams }, none⟩
+  | .rhdr sid es =>
+    let ss := updStream m.streams sid (fun s =>
+      if s.status = .preHeaders then { s with status := if es then endedStatus m s else .open_ } else s)
+    ⟨{ m with streams := ss }, none⟩
   | .hdr sid cl es =>
     if sid ≤ m.maxSid ∨ sid % 2 = 0 then ⟨{ m with dead := true }, none⟩
     else ⟨{ m with maxSid := sid,
-                   streams := ⟨sid, if es then .halfRemote else .open_, m.streamInit, cl, 0, 0, false⟩ :: m.streams }, none⟩
+                   streams := ⟨sid, if es then .halfRemote else .open_, m.streamInit, cl, 0, 0, false, false, false⟩ :: m.streams }, none⟩
   | .data sid len pad es => dataAct m sid len pad es
   | .read _ => ⟨m, none⟩
-  | .bclose sid => ⟨{ m with streams := updStream m.streams sid (fun s => { s with bodyClosed := true }) }, none⟩
+  | .bclose sid =>
+    -- server: the handler closes the request body; Transport: Response.Body.Close aborts the stream
+    if m.transport then ⟨setStatus m sid .closed, none⟩
+    else ⟨{ m with streams := updStream m.streams sid (fun s => { s with bodyClosed := true }) }, none⟩
   | .hexit sid => ⟨setStatus m sid .closed, none⟩
   | .crst sid => ⟨setStatus m sid .closed, none⟩
   | .quiesce => ⟨m, none⟩
@@ -171,8 +216,11 @@ def obsStep (fc : Option Nat) (m : Mon) : Obs → Except String Mon
     if code = errFlowControl ∧ fc ≠ some sid then .error "flow-control-error-within-window"
     else .ok (setStatus m sid .closed)
   | .goaway code =>
-    if code = errFlowControl then .error "flow-control-goaway"
+    if code = errFlowControl ∧ fc ≠ some 0 then .error "flow-control-goaway"
     else .ok { m with dead := m.dead || decide (code ≠ 0) }
+  | .connerr code =>
+    if code = errFlowControl ∧ fc ≠ some 0 then .error "flow-control-error-within-window"
+    else .ok { m with dead := true }
   | .rd sid n =>
     match findStream m.streams sid with
     | none => .ok m
@@ -194,13 +242,16 @@ def obsFold (fc : Option Nat) (m : Mon) : List Obs → Except String Mon
     | .error e => .error e
     | .ok m' => obsFold fc m' rest
 
-def hasFC (sid : Nat) (obs : List Obs) : Bool := obs.contains (.rst sid errFlowControl)
+/-- FLOW_CONTROL_ERROR was reported on `sid` (0: as a connection error). -/
+def hasFC (sid : Nat) (obs : List Obs) : Bool :=
+  if sid = 0 then obs.contains (.goaway errFlowControl) || obs.contains (.connerr errFlowControl)
+  else obs.contains (.rst sid errFlowControl)
 
 /-- An application step the harness could not perform (handler blocked in a read, or gone)
 has no effect of its own. -/
 def effAct (a : Act) (obs : List Obs) : Act :=
   match a with
-  | .bclose _ | .hexit _ => if obs.contains .skipped then .read 0 else a
+  | .bclose _ | .hexit _ | .req _ _ | .rhdr _ _ => if obs.contains .skipped then .read 0 else a
   | _ => a
 
 /-- The `reset` line: a new connection; the initial WINDOW_UPDATE must bring the peer's view
@@ -236,6 +287,7 @@ def liveLine (m : Mon) (act : Act) (obs : List Obs) : Except String Mon :=
 def lineStep (m : Mon) (l : Line) : Except String Mon :=
   match l.act with
   | .reset .. => resetLine m l
+  | .treset .. => resetLine m l
   | act0 =>
     if !m.started then .ok m  -- nothing to check before a connection exists
     else if m.dead then .ok m
